@@ -95,12 +95,15 @@ def rule_plain_token_values(ctx, rid="C13.PLAIN-TOKEN-VALUES"):
 
 def check(rep):
     ctx = Ctx(rep)
+    ctx.shape_options.add("overflow")      # "any other token": numbers whose value has no literal spelling of its own (inf)
     if rep.tier == "thorough":
         LR.validate_engine(ctx)
     rule_id_charset(ctx)
     rule_plain_token_values(ctx)
     LR.rule_string_delimiters(ctx, rid="C13.STRING-DELIMITERS")
     PR.rule_compiles(ctx, rid="C13.SHAPE-COMPILES", strict=False)
+    # a literal must stay a constant whatever its value: a number too large for a float must not surface as the NAME `inf`
+    PR.rule_names_bound(ctx, rid="C13.NO-NAME-FROM-LITERAL")
     PR.rule_renderers(ctx, rid="C13.TAINT", kinds=("str",), extra_safe=("json",))
     PR.rule_string_surface(ctx)
     n = PR.rule_placement(ctx)
